@@ -61,16 +61,18 @@ Proof. exact padding_is_covered. Qed.
 Theorem C10_abi_nops : forall isa, abi_nop isa <> [] /\ (isa >= 2 -> length (abi_nop isa) = 4)%nat /\ (isa < 2 -> length (abi_nop isa) = 1)%nat.
 Proof. exact abi_nops_are_whole_instructions. Qed.
 
-(* the round trip: for every fully initialized interval whose blocks are sorted by offset and start inside it, and whose offset-keyed
-   tables have one entry per key, joining the intervals that split_byte_interval made gives the interval back: same address, size,
-   bytes and blocks (identities, offsets, sizes, kinds), and every symbolic expression and table entry is found at its old offset.
-   Without alignment entries no padding is inserted, whatever the nop length. *)
+(* the round trip: for every fully initialized interval whose blocks are sorted by offset and start inside it, whose offset-keyed
+   tables have one entry per key, and whose alignment requirements hold (every block with an entry in the alignment table sits at a
+   multiple of it), joining the intervals that split_byte_interval made gives the interval back: same address, size, bytes and blocks
+   (identities, offsets, sizes, kinds), and every symbolic expression and table entry is found at its old offset.  No padding is
+   inserted, whatever the nop encoding. *)
 Theorem C10_join_split_is_identity :
-  forall nop next iv,
+  forall nop align next iv,
     Z.of_nat (length (iv_contents iv)) = iv_size iv ->
     NoDup (map fst (iv_symex iv)) -> Forall (fun m => NoDup (map fst m)) (iv_tabs iv) ->
     wf_blocks iv ->
-    exists r, join_byte_intervals nop [] next (split_byte_interval iv) = Ok r /\ same_ival r iv (iv_blocks iv).
+    (forall b, In b (iv_blocks iv) -> holds iv align b) ->
+    exists r, join_byte_intervals nop align next (split_byte_interval iv) = Ok r /\ same_ival r iv (iv_blocks iv).
 Proof. exact join_split_is_identity. Qed.
 
 Example C10_round_trip_hypotheses_hold :
@@ -80,6 +82,20 @@ Example C10_round_trip_hypotheses_hold :
 Proof.
   cbn. split; [reflexivity|]. split; [constructor; [intros []|constructor]|]. split; [repeat constructor|].
   split; [|reflexivity]. split; [cbn; repeat split; discriminate|repeat constructor; cbn; discriminate].
+Qed.
+
+(* the alignment hypothesis is satisfiable with a non-empty table: block 1 sits at 4098 (a multiple of 2), block 0 at 4096 *)
+Example C10_alignment_hypothesis_holds :
+  let iv := mk_ival 4096 6 [1; 2; 3; 4; 5; 6] [mk_iblk 0 0 2 true; mk_iblk 1 2 3 true; mk_iblk 2 5 1 false] [(3, 7)] [[]; []; []] in
+  let align := [(0%nat, 16); (1%nat, 2)] in
+  (forall b, In b (iv_blocks iv) -> holds iv align b) /\
+  match join_byte_intervals [144] align 900 (split_byte_interval iv) with
+  | Ok j => iv_contents j = iv_contents iv /\ iv_size j = 6
+  | Err _ => False
+  end.
+Proof.
+  cbn zeta. split; [|vm_compute; repeat split].
+  intros b [<-|[<-|[<-|[]]]] a Ha; cbn in Ha; try discriminate Ha; injection Ha as <-; cbn; split; reflexivity.
 Qed.
 
 Example C10_nonvacuous :
